@@ -141,6 +141,82 @@ fn child(args: &[String]) {
         }
     }
 
+    // C04: for a share of the clause sets, every accepted prefix of the expected sequence is extended by
+    // every possible next call (method x argument tuple)
+    if prop == "C04" {
+        let mut local_viol = 0u64;
+        let sets = (cases / 40).max(1);
+        for k in 0..sets {
+            let mut rng = Rng::new(mix3(seed ^ 0xC04, worker, k));
+            let mut run_one = |case: Case| {
+                let trace = run_case(&case);
+                let result = check(&case, &trace, cfg, Variant::True);
+                stats.merge(&result.stats);
+                stats.bump("prefix_extension_cases");
+                hashes.insert(case.hash64());
+                if let Some(d) = result.disc {
+                    if d.props.iter().any(|p| *p == "C04") {
+                        local_viol += 1;
+                        if local_viol <= 3 {
+                            let line = Obj::new()
+                                .str("property", &prop)
+                                .raw("tags", arr(d.props.iter().map(|p| esc(p))))
+                                .num("seed", seed)
+                                .num("worker", worker)
+                                .num("index", k)
+                                .str("config", build_cfg_name())
+                                .str("at", &d.at)
+                                .str("expected", &d.expected)
+                                .str("observed", &d.observed)
+                                .str("case", &format!("{case}"))
+                                .build();
+                            println!("VIOLATION_CASE {line}");
+                        }
+                    }
+                }
+            };
+            harness::gen::c04_prefix_cases(&mut rng, cfg, 600, &mut run_one);
+        }
+        violations += local_viol;
+    }
+
+    // C09: every lifecycle sequence up to a length, in addition to the random ones
+    let mut enumerated = 0u64;
+    if prop == "C09" {
+        let max_len: usize = arg(args, "--enum-len").unwrap_or("4".into()).parse().unwrap();
+        let jobs: usize = arg(args, "--jobs").unwrap_or("16".into()).parse().unwrap();
+        let mut local_viol = 0u64;
+        let mut run_one = |case: Case| {
+            let trace = run_case(&case);
+            let result = check(&case, &trace, cfg, Variant::True);
+            stats.merge(&result.stats);
+            stats.bump("enumerated_sequences");
+            hashes.insert(case.hash64());
+            if let Some(d) = result.disc {
+                if d.props.iter().any(|p| *p == "C09") {
+                    local_viol += 1;
+                    if local_viol <= 3 {
+                        let line = Obj::new()
+                            .str("property", &prop)
+                            .raw("tags", arr(d.props.iter().map(|p| esc(p))))
+                            .num("seed", seed)
+                            .num("worker", worker)
+                            .num("index", 0)
+                            .str("config", build_cfg_name())
+                            .str("at", &d.at)
+                            .str("expected", &d.expected)
+                            .str("observed", &d.observed)
+                            .str("case", &format!("{case}"))
+                            .build();
+                        println!("VIOLATION_CASE {line}");
+                    }
+                }
+            }
+        };
+        enumerated = harness::gen::enum_lifecycle(max_len, worker as usize, jobs, cfg, &mut run_one);
+        violations += local_viol;
+    }
+
     // hashes to a file for cross-worker de-duplication
     let mut sorted: Vec<u64> = hashes.into_iter().collect();
     sorted.sort_unstable();
@@ -155,6 +231,7 @@ fn child(args: &[String]) {
         .num("worker", worker)
         .num("cases", cases)
         .num("violations", violations)
+        .num("enumerated", enumerated)
         .raw("stats", map_counts(stats.0.iter().map(|(k, v)| (k.clone(), *v))))
         .raw(
             "distinguishing",
@@ -229,6 +306,10 @@ fn run(args: &[String]) {
                     &per.to_string(),
                     "--out",
                     &out_dir,
+                    "--jobs",
+                    &jobs.to_string(),
+                    "--enum-len",
+                    &arg(args, "--enum-len").unwrap_or("4".into()),
                 ])
                 .stdout(Stdio::piped())
                 .stderr(Stdio::null())
